@@ -68,7 +68,7 @@ SLICE_SPEC = {
     ],
     "generator/mod.rs": [{"id": "Mode", "enum": "Mode"}],
     "feature/table_range.rs": [{"id": "ofs_loop", "fn": "generate", "for_over": "value_ranges . iter ()", "with_preceding_lets": ["ofs", "hl", "h"]}],
-    "parser/values.rs": [{"id": "sorted_values", "fn": "parse_values", "let_nested": "values"}],
+    "parser/values.rs": [{"id": "sort_site", "fn": "parse_values", "let_with_next": "values", "must_contain": "collect"}],
 }
 
 EXPECTED_SORT_SITE = ("let mut values = values . iter () . map (| (k , v) | (* k , v . clone ())) . collect ::< Vec < _ >> () ;",
@@ -90,9 +90,6 @@ def run_layer_g(scratch):
     slices = {}
     problems = []
     for rel, items in SLICE_SPEC.items():
-        items = [i for i in items if "let_nested" not in i]
-        if not items:
-            continue
         spec_path = os.path.join(scratch, "gspec_%s.json" % rel.replace("/", "_"))
         with open(spec_path, "w") as f:
             json.dump({"items": items, "overlay": ov}, f)
@@ -103,9 +100,12 @@ def run_layer_g(scratch):
         for k, v in d.items():
             slices[k] = v
             for e in v.get("errors", []):
-                problems.append("%s: %s" % (k, e))
+                if k != "sort_site":
+                    problems.append("%s: %s" % (k, e))
     text = open(os.path.join(VERIF, "contracts", "gen_prelude.rs")).read() + WRAPPERS
     for k, v in slices.items():
+        if k == "sort_site":
+            continue
         if k == "Mode":
             # visibility has no semantics here; Verus wants `pub` for the auto-generated variant predicates
             text = text.replace("@MODE_ENUM@", re.sub(r"^\s*pub \( crate\) enum", "pub enum", v.get("text") or ""))
@@ -118,10 +118,15 @@ def run_layer_g(scratch):
            "slices": {k: (v.get("raw") or "")[:600] for k, v in slices.items()}}
     # structural obligations: the sort site (C17/C18) and the quote templates (recorded for the seam)
     vsrc = open(os.path.join(REPO, "src", "parser", "values.rs")).read()
-    flat = re.sub(r"\s+", " ", vsrc)
-    site_ok = ("values.sort_by_key(|v| v.0);" in flat and
-               re.search(r"let mut values = values \.iter\(\) \.map\(\|\(k, v\)\| \(\*k, v\.clone\(\)\)\) \.collect::<Vec<_>>\(\);", flat) is not None)
+    # the Vec collected from the HashMap must be sorted by key UNCONDITIONALLY: the statement that directly
+    # follows the collect in the same block is the sort (slice of two adjacent statements)
+    raw = re.sub(r"\s+", " ", (slices.get("sort_site", {}).get("raw") or ""))
+    want = ("let mut values = values . iter ( ) . map ( | ( k , v ) | ( * k , v . clone ( ) ) ) . collect :: < Vec < _ > > ( ) ; "
+            "values . sort_by_key ( | v | v . 0 ) ;")
+    norm = lambda t: re.sub(r"\s+", "", t)
+    site_ok = norm(raw) == norm(want)
     res["sort_site_ok"] = bool(site_ok)
+    res["sort_site_found"] = raw[:400]
     res["hashmap_insert_checked"] = "values.insert(" in vsrc and "DuplicateValue" in vsrc
     res["templates_as_expected"] = (res["templates"] == EXPECTED_TEMPLATES)
     if problems:
